@@ -625,6 +625,11 @@ def run(tier):
     # "the rest of the line" must be what the provided body takes (a comment that runs over a lone CR swallows content lines) - C10's clause
     from . import C10 as _C10
     _C10.skip_ws_to_eol_agreement(rep, F, tier, "header-line-skip-agreement")
+    # 'parent context: top level': the content lines of a block scalar at indentation 0 are the lines up to the next document marker; a
+    # `...` / `---` line read as a content line puts the marker and whatever follows it into the scalar's text (C15's clause, run here
+    # as a premise: every path to the content-line reader passes the marker test or leaves through the other edge of `indent == 0`)
+    from . import C15 as _C15
+    _C15.block_scalar_stops_at_marker(rep, F, rule="top-level-content-ends-at-marker")
     return rep
 
 
